@@ -6,7 +6,7 @@ use rustc_ast_pretty::pprust;
 use rustc_middle::ty::TyCtxt;
 
 use crate::json::J;
-use crate::mirfacts::span_str;
+use crate::mirfacts::{span_str, user_span_str};
 
 struct V<'a, 'tcx> {
     tcx: TyCtxt<'tcx>,
@@ -101,7 +101,8 @@ impl<'a, 'tcx> V<'a, 'tcx> {
                 .set("pieces", J::Arr(pieces))
                 .set("args", J::Arr(args))
                 .set("conds", J::Arr(self.conds.clone()))
-                .set("span", J::s(span_str(self.tcx, e.span))),
+                .set("span", J::s(span_str(self.tcx, e.span)))
+                .set("uspan", J::s(user_span_str(self.tcx, e.span))),
         );
     }
 }
